@@ -240,13 +240,20 @@ type Node struct {
 	Header   tmproto.Header // header of the block in progress
 	opened   int
 	LastReq  abci.RequestBeginBlock
+	Sprayer  *common.Address // contract that pays 1 unit to eight fresh low addresses (scenario state)
 	imported *Node // a chain started from this node's exported genesis (C19), if any
 }
 
+// NodeLocal are node-local settings (app.toml / flags) that must never influence committed state.
+var NodeLocal = map[string]interface{}{}
+
 func openApp(db dbm.DB) *app.Haqq {
+	opts := simtestutil.AppOptionsMap{"home": app.DefaultNodeHome}
+	for k, v := range NodeLocal {
+		opts[k] = v
+	}
 	return app.NewHaqq(log.NewNopLogger(), db, nil, true, map[int64]bool{}, app.DefaultNodeHome, 0,
-		encoding.MakeConfig(app.ModuleBasics), simtestutil.NewAppOptionsWithFlagHome(app.DefaultNodeHome),
-		baseapp.SetChainID(ChainID))
+		encoding.MakeConfig(app.ModuleBasics), opts, baseapp.SetChainID(ChainID))
 }
 
 // ConsensusParams used by every scenario.
